@@ -2,7 +2,7 @@
 import collections
 from harness import drive_sup, gen_graph, tlc
 from harness.gd import empty
-from harness.runner import pmap
+from harness.runner import first_per_clause, pmap
 
 
 def corpus(ctx):
@@ -50,7 +50,7 @@ def run(ctx, items=None):
                     if m['kind'] == 'opt' and t['g']['ch'][m['src']-1]['origin'] not in e['src_nodes']:
                         out['inactive_cases'] += 1
         if v[2]:
-            out['fails'].append({'tid': t['tid'], 'fails': v[2][:8], 'g': t['g'], 's': t['s']})
+            out['fails'].append({'tid': t['tid'], 'fails': first_per_clause(v[2]), 'g': t['g'], 's': t['s']})
     for t in traces[:2]:
         out['samples'].append({'source': {k: t['g'][k] for k in ('n', 'der', 'ch', 'inc')}, 'sup': {k: t['s']['g'][k] for k in ('n', 'der', 'ch')},
                                'maps': t['s']['maps'], 'neg': t['s']['neg'], 'events': t['ev'][:4]})
